@@ -370,6 +370,13 @@ func c06Signature(c *Ctx) {
 				continue
 			}
 			n++
+			// the same part written with strings.Cut: the text after the first dot, which contains no further dot
+			if s.n == 2 && s.i == 1 && r.Op == "ret" && r.Name == "1" && len(r.Args) == 1 && r.Args[0].IsCall("strings.Cut") && len(r.Args[0].Args) == 2 && r.Args[0].Args[1].Key() == tStr(".").Key() {
+				if !p.True(ret(2, r.Args[0])) || !p.False(call("strings.Contains", r, tStr("."))) {
+					ok, why = false, "the text after the first dot is returned without the token having exactly 2 parts"
+				}
+				continue
+			}
 			if !(r.Op == "idx" && r.Args[0].IsCall("strings.Split") && len(r.Args[0].Args) == 2 && r.Args[0].Args[1].Key() == tStr(".").Key()) {
 				ok, why = false, "returns "+clip(r.Pretty(), 80)
 				continue
